@@ -149,7 +149,7 @@ def shrink(tf, ck, case, k, still_diverges):
     return ops
 
 
-def run_tie(ck, tf, n_hist, profile, configs=CONFIGS, corpus=(), kwargs_for=None):
+def run_tie(ck, tf, n_hist, profile, configs=CONFIGS, corpus=(), kwargs_for=None, extra_cases=()):
     """returns dict(divergences=[...], stats=...)"""
     gen_seed = ck.seed
     cases, meta = [], []
@@ -166,6 +166,9 @@ def run_tie(ck, tf, n_hist, profile, configs=CONFIGS, corpus=(), kwargs_for=None
         ops = g.history(csv)
         cases.append((csv, auto, ops, None))
         meta.append(("gen", h) if kw is None else ("gen", h, {k: str(v) for k, v in kw.items()}))
+    for (csv, auto, ops) in extra_cases:
+        cases.append((csv, auto, ops, None))
+        meta.append(("enumerated", len(cases)))
     done = []
     for ci, (csv, auto, ops, _) in enumerate(cases):
         kw = kwargs_for(meta[ci][1]) if (kwargs_for and meta[ci][0] == "gen") else None
@@ -246,14 +249,15 @@ def nontrivial(case):
     return ok_w and ok_r
 
 
-def db_check(pid, tier, seed, profile, n_quick, n_thorough, prop_module, claims_note, extra_cov=None, direct=None, configs=CONFIGS, kwargs_for=None):
+def db_check(pid, tier, seed, profile, n_quick, n_thorough, prop_module, claims_note, extra_cov=None, direct=None, configs=CONFIGS, kwargs_for=None,
+             extra_cases=()):
     """generic driver for the properties decided on the database-level model"""
     ck = Check(pid, tier, seed)
     tf = use_impl()
     b = ck.build_proofs(prop_module, extra_targets=["Run.vo", "Refinement.vo"])
     n = n_quick if tier == "quick" else n_thorough
     corpus = load_corpus(pid)
-    res = run_tie(ck, tf, n, profile, configs=configs, corpus=corpus, kwargs_for=kwargs_for)
+    res = run_tie(ck, tf, n, profile, configs=configs, corpus=corpus, kwargs_for=kwargs_for, extra_cases=extra_cases)
     cases = res["cases"]
     mine, elsewhere, known_hits = [], Counter(), Counter()
     for ci, k in res["divergences"]:
